@@ -122,7 +122,20 @@ class NullDomain(Domain):
                 return V((o.elem.tag - A) or VV, o.elem.ref)
         return V(VV)
 
+    def boolop_operand(self, it, op, v, is_last, st):
+        """`a or b` yields a only when a is truthy (hence not None)."""
+        if isinstance(op, ast.Or) and not is_last and "N" in v.tag:
+            t = v.tag - N
+            return V(t if (t - frozenset(x for x in t if isinstance(x, tuple))) else (t | VV), v.ref, v.const)
+        return v
+
+    def _use(self, it, v, node, how):
+        if "N" in v.tag:
+            self.derefs.append((it.stack[-1].func, node, v.tag, how))
+
     def binop(self, it, op, l, r, node, st):
+        self._use(it, l, node, "arithmetic")
+        self._use(it, r, node, "arithmetic")
         return V(VV)
 
     def unaryop(self, it, op, v, node, st):
@@ -134,7 +147,13 @@ class NullDomain(Domain):
     def format(self, it, vals, node, st):
         return V(VV)
 
+    def on_format_spec(self, it, fv, val, st):
+        if fv.format_spec is not None:
+            self._use(it, val, fv, "formatted with a format spec")
+
     def iter_elem(self, it, v, node, st):
+        if node is not None:
+            self._use(it, v, node, "iterated")
         return None
 
     def unpack(self, it, v, i, n, node, st):
@@ -144,6 +163,17 @@ class NullDomain(Domain):
         return V(VV)
 
     def call_external(self, it, nm, args, kwargs, node, st):
+        if nm in ("builtins.int", "builtins.float", "builtins.len", "builtins.abs", "builtins.round", "builtins.sum", "builtins.max", "builtins.min", "builtins.sorted", "builtins.zip", "builtins.enumerate") or nm.startswith("numpy."):
+            for a in args:
+                self._use(it, a, node, f"passed to {nm.split('.', 1)[1]}()")
+        if nm in ("attrs.evolve", "attr.evolve") and args:
+            o = it.obj(st, args[0])
+            if o is not None:
+                slots = dict(o.slots)
+                for k, v in kwargs.items():
+                    if k != "**":
+                        slots["." + k] = v
+                return it.new(st, o.kind, node, slots=slots, meta=dict(o.meta), tag=VV)
         if nm in MAYBE_NONE_EXTERNALS:
             return V(NV)
         if nm == "builtins.next" and len(args) == 2:
@@ -171,7 +201,7 @@ class NullDomain(Domain):
     def deref(self, it, expr, base, st):
         """`expr.attr`, `expr[...]`, `expr.method()`: on the continuing path expr is neither None nor unbound."""
         if "N" in base.tag or "A" in base.tag:
-            self.derefs.append((it.stack[-1].func, expr, base.tag))
+            self.derefs.append((it.stack[-1].func, expr, base.tag, "dereferenced"))
             self._narrow(it, expr, None, st, remove=frozenset("NA"))
 
     def on_name_load(self, it, node, v, st):
